@@ -38,10 +38,12 @@ Reach(todo, seen) ==
         IN Reach((todo \ {x}) \cup ({ks[i] : i \in DOMAIN ks} \ (seen \cup {x})), seen \cup {x})
 \* the machine models memory inputs (plain and with the depth counter), the action families 0..7 and the operators above
 Supported(ev) ==
-   /\ ev.cls \in {0, 1} /\ ev.xt \in {0, 3} /\ ev.af \in 0..7
+   /\ ev.cls \in {0, 1} /\ ev.xt \in {0, 3, 4} /\ ev.af \in 0..7
    /\ \A x \in Reach({ev.g}, {}) :
          /\ (TableNodes[x].iop \in MachineOps \/ M!IsAtom(x))
          /\ (TableNodes[x].iop \in {"strict", "star_strict"} => M!RestOf(TableNodes[x].ikids) # {})
+         \* (internal rules enter the table when the code first calls them: without them the model has nothing to call)
+         /\ (TableNodes[x].iop = "rep_min_max" /\ TableNodes[x].ip[2] > 0 => M!NotAtOf(TableNodes[x].ikids[1]) # {})
          /\ (TableNodes[x].iop = "raise" => TableNodes[x].ip # <<>> /\ TableNodes[x].ip[1] > 0)
          /\ M!AKindOf(x, ev.af) \in 0..7
 
@@ -81,7 +83,7 @@ Next ==
            /\ skip' = ~Supported(ev)
            /\ log' = [log EXCEPT !.cases = @ + 1, !.skipped = @ + (IF Supported(ev) THEN 0 ELSE 1)]
            /\ l' = l + 1
-      ELSE IF skip
+      ELSE IF skip \/ ev.k \in {"cov", "fin"}       \* (records that are not steps of the run: the coverage report, the end marker)
       THEN l' = l + 1 /\ UNCHANGED <<w, cfg, fr, cur, ret, exc, q, done, aux, skip, steps, log>>
       ELSE IF q # <<>>
       THEN IF Same(Head(q), ev)
@@ -95,6 +97,10 @@ Next ==
       ELSE IF done = -1
       THEN IF steps > 4000
            THEN /\ log' = Drift("model does not terminate", 0) /\ skip' = TRUE
+                /\ UNCHANGED <<l, w, cfg, fr, cur, ret, exc, q, done, aux, steps>>
+           ELSE IF ~ENABLED M!MStep
+           THEN \* safety net: the model has no step (a rule it would have to call is not in the table)
+                /\ log' = Drift("model is stuck", 0) /\ skip' = TRUE
                 /\ UNCHANGED <<l, w, cfg, fr, cur, ret, exc, q, done, aux, steps>>
            ELSE M!MStep /\ steps' = steps + 1 /\ UNCHANGED <<l, w, cfg, skip, log>>
       ELSE \* the model's run is over: the next recorded event must be the end of the real run, with the same result
